@@ -266,6 +266,70 @@ class Tracer:
         self._patch(cells.Cells, "get_near_cells", mk_near)
         self._patch(cells.Cells, "assign_cells", mk_assign)
 
+        # ---- the use of the queries in hydrogen-bond detection: the potential bonds the optimiser records for each
+        # donor / acceptor atom of its groups, against the partners a brute-force search over the whole structure gives
+        # (same eligibility conditions, distance < 4.3 A).  One "detect" event per group atom is placed where the detection
+        # starts (the state the queries see); its "got" list is filled in as the PotentialBond objects are created.
+        import pdb2pqr.hydrogens as hyd
+        import pdb2pqr.hydrogens.structures as hst
+
+        tr._detect = None
+
+        def mk_pb(orig):
+            def __init__(pb, atom1, atom2, *xa, **xk):
+                if tr._detect is not None:
+                    ev = tr._detect.get(id(atom1))
+                    if ev is not None:
+                        ev["got"].append(tr.aid(atom2))
+                return orig(pb, atom1, atom2, *xa, **xk)
+            return __init__
+
+        def mk_opt(orig):
+            def optimize_hydrogens(hr, *xa, **xk):
+                try:
+                    tr.flush_moves()
+                    tr._detect = tr._detection_wants(hr, cid)
+                except Exception as e:          # the audit is best effort: a failure here is reported, never raised
+                    tr._detect = None
+                    tr.emit(e="detect-error", msg=f"{type(e).__name__}: {e}"[:200])
+                try:
+                    return orig(hr, *xa, **xk)
+                finally:
+                    tr._detect = None
+            return optimize_hydrogens
+
+        self._patch(hst.PotentialBond, "__init__", mk_pb)
+        self._patch(hyd.HydrogenRoutines, "optimize_hydrogens", mk_opt)
+
+    def _detection_wants(self, hr, cid):
+        import numpy as np
+
+        cells = hr.debumper.cells
+        c = cid(cells)
+        univ = [a for res in hr.debumper.biomolecule.residues for a in res.atoms]
+        if not univ or not hr.optlist:
+            return {}
+        xyz = np.array([[a.x, a.y, a.z] for a in univ], dtype=float)
+        don = np.array([bool(a.hdonor) for a in univ])
+        acc = np.array([bool(a.hacceptor) for a in univ])
+        resid = np.array([id(a.residue) for a in univ])
+        out = {}
+        for obj in hr.optlist:
+            for atom in obj.atomlist:
+                if id(atom) in out:
+                    continue
+                d = np.sqrt(((xyz - np.array([atom.x, atom.y, atom.z])) ** 2).sum(axis=1))
+                ok = (d < 4.3 - 1e-6) & (resid != id(atom.residue)) & (don | acc)
+                if atom.hdonor and not atom.hacceptor:
+                    ok &= acc
+                if atom.hacceptor and not atom.hdonor:
+                    ok &= don
+                want = [self.aid(univ[i]) for i in np.nonzero(ok)[0]]
+                ev = {"e": "detect", "c": c, "a": self.aid(atom), "want": want, "got": []}
+                self.events.append(ev)
+                out[id(atom)] = ev
+        return out
+
 
     @staticmethod
     def peptide_neighbours(bio):
